@@ -57,7 +57,7 @@ namespace gtry::hlim
 		uint64_t amountVal = state.extractNonStraddling(sim::DefaultConfig::VALUE, inputOffsets[1], amountWidth);
 		uint64_t amountDef = state.extractNonStraddling(sim::DefaultConfig::DEFINED, inputOffsets[1], amountWidth);
 
-		if (amountDef != (1ull << amountWidth) - 1)
+		if (!utils::isMaskSet<uint64_t>(amountDef, 0, amountWidth)) // note: (1ull << 64) is undefined behavior
 		{
 			state.setRange(sim::DefaultConfig::DEFINED, outputOffsets[0], width, false);
 			return;
